@@ -711,8 +711,14 @@ class TopLevelVisitor(ast.NodeVisitor):
             linex = node.lineno - 1
             pattern = r'\s*(async\s+)?def\s*' + node.name
             # I think this is actually robust
-            while not re.match(pattern, self.sourcelines[linex]):
+            while (linex < len(self.sourcelines) and
+                   not re.match(pattern, self.sourcelines[linex])):
                 linex += 1
+            if linex >= len(self.sourcelines):
+                # No line spells "def <name>" the way the ast has the name
+                # (a line continuation behind def, an identifier the compiler
+                # normalised): keep what the node says
+                linex = node.lineno - 1
             lineno = linex + 1
         else:
             lineno = node.lineno
